@@ -17,6 +17,8 @@ Driver for C19 (response sink).  Case lines (after the index):
   Y <k (hex name, path, format, rate)…> <close 0|1> <n resp…>            (Combined policy: build, writes, close)
       → `builderr <k paths after>` | `ok <close: skip|none|some hex names> <k> <k files> <n> (o|e <enc>| l | p)…`
   <path>    = m (missing) | f <hex> (a file) | d (a directory) | p (no parent directory) | F (a device refusing writes)
+  Z <format> <k (T (n resp…)…)…>   (k sinks on ONE file, each with its own lock and T writer threads)
+      → `ok <hex canonical file>`
   P <hex text>                   (reader: `SinkRead.parse` vs `serde_json::from_str`)
       → `ok <enc value, number bits 0>` | `fail`
   X <k formats…> <response>      (a Combined sink of k file sinks, one response)
@@ -29,6 +31,7 @@ import Compass.Drv.Proto
 import Compass.Drv.JsonProto
 import Compass.Model.Sink
 import Compass.Model.SinkRead
+import Compass.Model.SinkFine
 
 namespace Compass.Drv.C19
 open Compass Compass.Proto Compass.Sink
@@ -337,6 +340,21 @@ def caseP : P String := do
       let (sinks'', names) := if close then closeCombined sinks' else (sinks', some [])
       let closed := if close then optOut (fun ns => JsonProto.hexOfStr (",".intercalate ns)) names else "skip"
       pure (joinSp (["ok", closed, toString sinks''.length] ++ sinks''.map fileOut ++ [toString outs.length] ++ outs.reverse))
+  | "Z" => do
+    -- several sinks on one file: no common lock — the small-step model without guard, one `write` call per
+    -- record (the repaired code), the workers of all sinks taking turns step by step
+    let f ← format
+    let handles ← listOf (listOf (listOf JsonProto.json))
+    match build .append f none none with
+    | .ok sink =>
+      let queues := handles.flatten
+      let cfg : SinkFine.Config := { N := floatOps, format := f, persist := false, guard := false, split := SinkFine.oneCall }
+      let rounds := 5 * (queues.map List.length).foldl max 0 + 5
+      let schedule := (List.replicate rounds (List.range queues.length)).flatten
+      let st := SinkFine.exec cfg (SinkFine.init sink.file 0 queues) schedule
+      let asSink : FileSink := { sink with file := st.file }
+      pure s!"ok {hexOfText (canonFile asSink true)}"
+    | _ => pure "builderr"
   | "P" => do
     -- the reader of Model/SinkRead.lean against serde_json::from_str on one line of text
     let line ← JsonProto.str
